@@ -70,10 +70,44 @@ func (c *C13) Run(x *engine.Ctx) *engine.Violation {
 		}
 		w.AddConn(&service.ClientConn{Addr: service.ProverAddr, Reqs: []*service.Request{r}, Frag: t.Draw(4), StartStep: 55 + t.Draw(40)})
 	}
+	slow := 0
+	if t.Chance(1, 4) {
+		// slow uploaders: 2..12 further clients whose requests stop arriving somewhere inside the body (headers
+		// delivered, the handler is reading) and resume only once the rest of the system has gone quiet. The
+		// requests above are dialled after that point; their responses may not wait for the slow clients.
+		slow = 2 + t.Draw(11)
+		for _, cc := range w.Conns {
+			cc.AfterFrozen = true
+		}
+		for i := 0; i < slow; i++ {
+			var r *service.Request
+			if i == 0 && t.Chance(1, 2) {
+				r = gen.Valid()
+			} else if t.Chance(1, 2) {
+				r = gen.InvalidBatch()
+			} else {
+				r = gen.Malformed()
+			}
+			head := bytes.Index(r.Raw, []byte("\r\n\r\n")) + 4
+			if head < 4 || len(r.Raw)-head < 2 {
+				continue // no body to stall in
+			}
+			w.AddConn(&service.ClientConn{Addr: service.ProverAddr, Reqs: []*service.Request{r}, Frag: t.Draw(4), StartStep: 50 + t.Draw(20), FreezeAt: head + t.Draw(len(r.Raw)-head-1)})
+		}
+		sim.MaxSteps += slow * 800
+		x.S.Count("fault:net/slow-uploaders-stalled-mid-body")
+	}
 	runWorld(x, sim, w, c.sys.Mode)
 	x.S.Count("runs_strategy_" + sim.StrategyName())
 	noteSwitches(x, sim)
 	traceSample(x, sim, w, nil)
+	if slow > 0 && w.FrozenPhaseReached {
+		x.S.Count("probe:requests_served_while_other_uploads_were_stalled")
+		if len(w.BlockedByFrozen) > 0 {
+			r := w.BlockedByFrozen[0]
+			return engine.Violatef("C13/response-waits-for-other-clients-uploads", "request #%d (%s %s, sent completely) was still unanswered after the server had gone quiet for 5 s of simulated time while %d other clients were part-way through uploading their bodies; it was answered only after they resumed [strategy %s]", r.ID, r.Method, r.Kind, slow, sim.StrategyName())
+		}
+	}
 	if w.Stuck {
 		return engine.Violatef("C13/requests-never-complete", "%s after %d steps; parked: %v", w.StuckWhy, sim.Step, sim.ParkedAt())
 	}
